@@ -76,4 +76,11 @@ META = {
                     "(a crash before main is reported as a static-init violation).",
             "note": "Dense routines are the value reference (they are judged by C03-C05). ASan catches the reallocation a missing pattern entry would cause through coeffRef; library asserts (isCompressed) are active.",
             "technique": "runtime monitoring: guard/sentinel snapshots of sparse storage + differential dense-vs-sparse, ASan/UBSan"},
+    "C16": {"text": "Exploration with three independent memory monitors: views over caller-owned sentinel arenas at every scalar offset of a cache line "
+                    "with ASan-poisoned surroundings (stray accesses abort with a stack), byte-exact sentinel comparison of everything outside the "
+                    "range each call may write (whole object, or only the sub-range of so2()/so3()/r2()/r3()/r3_v()/r3_p()/r1_t()/r3<k>()/part<i>()), "
+                    "and const views on PROT_READ pages flush against PROT_NONE pages (any write or over-read is a SIGSEGV attributed to the case). "
+                    "Values: every const operation value vs Map vs const Map within 4 ulp; random mutating histories replayed on a plain value.",
+            "note": "ASan shadow granularity (8 bytes) limits poisoning next to float views; the sentinel and page monitors cover that. Sampled executions only.",
+            "technique": "runtime monitoring: ASan manual poisoning + sentinel snapshots + mprotect guard pages, differential value-vs-view histories"},
 }
